@@ -117,4 +117,15 @@ def Sys.run : Sys → List (Nat × OOp) → List (Nat × Option OOut) × Sys
     let (xs, objs'') := Sys.run objs' h
     ((i, x) :: xs, objs'')
 
+/-! ## `Writer::Write(Reader&)` over a live reader object of any backend -/
+
+/-- `do { n = reader.ReadPartial(buf, B); writer.Write(buf, n); } while (n);` — the reader is an object of any backend, the writer
+    is seen through the bytes it has received -/
+def copyLoopRd (B : Nat) : Nat → Rd → Bytes → Rd × Bytes
+  | 0, r, w => (r, w)
+  | fuel + 1, r, w =>
+    match r.step (.readPartial B) with
+    | (.bytes chunk, r') => if chunk.length = 0 then (r', w ++ chunk) else copyLoopRd B fuel r' (w ++ chunk)
+    | (_, r') => (r', w)
+
 end Op2.Stream
